@@ -197,8 +197,8 @@ impl Prop for C05 {
     }
     fn work(&self, tier: Tier) -> Work {
         match tier {
-            Tier::Quick => Work { cases_per_worker: 2000, workers: 8 },
-            Tier::Thorough => Work { cases_per_worker: 40_000, workers: 16 },
+            Tier::Quick => Work { cases_per_worker: 10000, workers: 8 },
+            Tier::Thorough => Work { cases_per_worker: 160000, workers: 16 },
         }
     }
     fn strategy(&self, _tier: Tier) -> BoxedStrategy<CScenario> {
